@@ -63,6 +63,7 @@
     the access level in force and exactly the written qualifier flags.
 -/
 import CxxModel.Theorems.FnBody
+import CxxModel.Theorems.BaseItems
 import CxxModel.Theorems.DeclGenItems
 import CxxModel.Blocks
 import CxxModel.Theorems.Events
@@ -615,6 +616,89 @@ example (env : Env) (hp : RulesProgress env.cfg = true) (hnf : env.faultAt = non
 
 example (env : Env) (hp : RulesProgress env.cfg = true) (hnf : env.faultAt = none) (F D : Nat) (v : DeclToks) :
     Member env F (core F (D + 1 + 1 + 1 + 1)) := Member.fieldPre env hp hnf F D v
+
+/-! ### base clauses: `key N : [access] [virtual] Base [...] , … {` -/
+
+/-- a base is `virtual` iff ITS OWN specifiers contain `virtual` -/
+theorem C03_base_virtual_own (specs : List Tok) (v : Bool) :
+    specVirtual v specs = (v || specs.any (fun s => s.type == "virtual")) := by
+  induction specs generalizing v with
+  | nil => simp [specVirtual]
+  | cons s ss ih => simp [specVirtual, ih, Bool.or_assoc]
+
+/-- the access level of a base is that of the LATEST access specifier among its own specifiers, and the class-key default when
+    it has none — never that of a neighbouring base -/
+theorem C03_base_access_own (specs : List Tok) (acc : String) :
+    specAccess acc specs = (((specs.filter (fun s => s.type ≠ "virtual")).getLast?).map (·.type)).getD acc := by
+  induction specs generalizing acc with
+  | nil => simp [specAccess]
+  | cons s ss ih =>
+    rw [specAccess, ih]
+    by_cases hv : s.type = "virtual"
+    · simp [hv]
+    · simp only [if_neg hv, ne_eq, hv, not_false_eq_true, decide_true, List.filter_cons_of_pos]
+      cases hf : ss.filter (fun s => decide ¬ s.type = "virtual") with
+      | nil => simp
+      | cons a as =>
+        simp only [List.getLast?_cons_cons]
+        cases hg : (a :: as).getLast? with
+        | none => exact absurd hg (by simp)
+        | some z => simp
+
+/-- **`key N : base-clause {` through `parse()`'s loop**: ONE class block whose header lists one `BaseClass` per written base,
+    in the written order, each with the access level of its own latest access specifier (else the class-key default:
+    `private` for `class`, `public` for `struct`/`union`), `virtual` iff written among its own specifiers, and the pack flag iff
+    `...` follows its own name; the members are then read under the class-key default as for a class without bases. -/
+theorem C03_class_head_bases (env : Env) (hc : env.cfg = genLexCfg) (F D : Nat) (w : World)
+    (kw first : Tok) (pairs : List (Tok × Tok)) (colon : Tok) (bs : List (BaseItem × Tok)) (last : BaseItem) (ob : Tok) (bk b1 bmid bc bb b' : Buf)
+    (blk : Block) (rest : List Block) (hstack : w.stack = blk :: rest)
+    (hmu : w.muted = false) (hfa : ¬ env.faultAt = some w.delivered)
+    (htkw : tokenEofOk env.cfg w.buf = .ok (some kw, bk)) (hkw : isClassKey kw.value = true) (hkwt : kw.type = kw.value)
+    (htf : tokenEofOk env.cfg bk = .ok (some first, b1)) (hf : first.type = "NAME") (hfv : plainVal first.value = true)
+    (hall : ∀ p ∈ pairs, p.1.type = "DBL_COLON" ∧ p.2.type = "NAME" ∧ plainVal p.2.value = true)
+    (hy : Yields env.cfg b1 (pairs.flatMap (fun p => [p.1, p.2])) bmid)
+    (htok : tokenEofOk env.cfg bmid = .ok (some colon, bc)) (hcolon : colon.type = ":")
+    (hbs : ∀ q ∈ bs, q.1.OK ∧ q.2.type = "," ∧ q.1.specs.length + q.1.pairs.length + 2 ≤ F)
+    (hlast : last.OK) (hlF : last.specs.length + last.pairs.length + 2 ≤ F)
+    (hyb : Yields env.cfg bc (bs.flatMap (fun q => q.1.toks ++ [q.2]) ++ last.toks) bb)
+    (htob : tokenEofOk env.cfg bb = .ok (some ob, b')) (hob : ob.type = "{") (hF : pairs.length + 2 ≤ F) (hFb : bs.length + 1 ≤ F) :
+    ∃ (d : Option String) (bD : Buf) (w' : World) (ct : CTok),
+      getDoxygen env.cfg env.mcRe w.buf = .ok (d, bD) ∧ w'.buf = b' ∧ ct.value = kw.value ∧
+      w'.stack = w.stack ∧ w'.events = w.events ∧ w'.delivered = w.delivered ∧ w'.anon = w.anon ∧ w'.muted = w.muted ∧
+      w'.nextId = w.nextId ∧
+      interp env (mainBody F (core F (D + 1 + 1)) none) w =
+        (pushedWorld env (classHdrB ct first pairs
+          (bs.map (fun q => q.1.denotes (defaultAccess kw.value)) ++ [last.denotes (defaultAccess kw.value)]) blk d) w', .ok (.inl none)) :=
+  toplevel_class_head_bases env (by rw [hc]; exact gen_rules_progress) F D w kw first pairs colon bs last ob bk b1 bmid bc bb b' blk rest hstack hmu hfa
+    htkw hkw hkwt htf hf hfv hall hy htok hcolon hbs hlast hlF hyb htob hob hF hFb
+
+/-- classes with base clauses are pieces of whole sources (`parse_source`) and of class bodies -/
+example (env : Env) (hp : RulesProgress env.cfg = true) (hnf : env.faultAt = none) (F D : Nat) (hskip : ∀ i h, env.skip i h = false)
+    (kw first : Tok) (pairs : List (Tok × Tok)) (bs : List (BaseItem × Tok)) (last : BaseItem)
+    (ms : List (Member env F (core F (D + 1 + 1 + 1 + 1)))) : Item env F (core F (D + 1 + 1 + 1 + 1)) :=
+  Item.clsB env hp hnf F D hskip kw first pairs bs last ms
+
+example (env : Env) (hp : RulesProgress env.cfg = true) (hnf : env.faultAt = none) (F D : Nat) (hskip : ∀ i h, env.skip i h = false)
+    (kw first : Tok) (pairs : List (Tok × Tok)) (bs : List (BaseItem × Tok)) (last : BaseItem)
+    (ms : List (Member env F (core F (D + 1 + 1 + 1 + 1)))) : Member env F (core F (D + 1 + 1 + 1 + 1)) :=
+  Member.clsB env hp hnf F D hskip kw first pairs bs last ms
+
+/-- non-vacuity: `protected virtual ns::B...` is a well-formed base; it denotes a virtual, protected pack base whatever the
+    default is, and `B` alone takes the default -/
+def exBase : BaseItem :=
+  { specs := [{ type := "protected", value := "protected", loc := default }, { type := "virtual", value := "virtual", loc := default }],
+    first := { type := "NAME", value := "ns", loc := default },
+    pairs := [({ type := "DBL_COLON", value := "::", loc := default }, { type := "NAME", value := "B", loc := default })],
+    pack := some { type := "ELLIPSIS", value := "...", loc := default } }
+
+example : exBase.OK ∧ (exBase.denotes "private").access = "protected" ∧ (exBase.denotes "private").virtual = true ∧
+    (exBase.denotes "private").paramPack = true ∧
+    (({ exBase with specs := [], pack := none } : BaseItem).denotes "public").access = "public" := by
+  refine ⟨⟨by decide, rfl, by decide, by decide, by decide, ?_⟩, rfl, rfl, rfl, rfl⟩
+  intro t ht
+  simp only [exBase, Option.some.injEq] at ht
+  rw [← ht]
+
 
 end
 
